@@ -13,10 +13,10 @@ CONSTANTS
   MaxVals = {0, 1, 2}
   StatusVals = {"Doing", "Done"}
   MaxChanges = 3
-  MaxTasks = 3
+  MaxTasks = 2
   MaxLanes = 0
   Vals = {"true"}
-  MaxDepth = 10
+  MaxDepth = 7
   MaxOcc = 4
   PruneTerminal = TRUE
   Clk0 = 1
